@@ -76,6 +76,7 @@ class NContract:
         self.n_thorough = g("n_thorough", 3000)
         self.native = g("native", True)
         self.native_ensures = g("native_ensures", {})
+        self.known_witnesses = g("known_witnesses", {})
 
 
 def resolve(target):
@@ -267,6 +268,16 @@ def bounded(args):
                 else:
                     entry.setdefault("more_failures", 0)
                     entry["more_failures"] += 1
+        # recorded witnesses of known findings: executed on every run, reported separately
+        entry["known_witnesses"] = []
+        for kid, wfn in c.known_witnesses.items():
+            try:
+                argv = wfn()
+                fails, outcome = check_one(c, fn, argv)
+            except Exception as e:  # noqa: BLE001
+                entry["known_witnesses"].append({"id": kid, "error": repr(e)})
+                continue
+            entry["known_witnesses"].append({"id": kid, "still_fails": bool(fails), "failed_clauses": [f_[0] for f_ in fails], "args_repr": short(argv, 600), "outcome": outcome})
         entry["distinct"] = len(distinct)
         entry["samples"] = samples
         entry["wall_s"] = round(time.time() - t0, 3)
